@@ -1,6 +1,6 @@
 (* Proofs about Model/Formats.v: codecs, partition file and weight file
    round trips (C19). *)
-From Coupe Require Import Lib.Prelude Model.Formats.
+From Coupe Require Import Lib.Prelude Gen.FormatsGen Model.Formats.
 Open Scope N_scope.
 
 (* ---- codecs ---- *)
@@ -148,8 +148,8 @@ Theorem partition_roundtrip_proof : forall ids,
   read_partition (write_partition ids) = FOk ids.
 Proof.
   intros ids Hids Hlen. unfold read_partition, write_partition.
-  rewrite (take_app_n 4 magic_part) by reflexivity.
-  rewrite bytes_eqb_refl. cbn [negb].
+  rewrite (take_app_n 4 part_magic_write) by reflexivity.
+  change (negb (bytes_eqb part_magic_write part_magic_read)) with false. cbv iota.
   rewrite take_app_n by now rewrite le_enc_length.
   assert (Hn : N.of_nat (length ids) < 2 ^ 64).
   { unfold isize_max in Hlen. change (2 ^ 63 - 1) with 9223372036854775807 in Hlen.
@@ -172,7 +172,7 @@ Theorem read_partition_terminates : forall s, read_partition s <> FOutOfFuel.
 Proof.
   intros s. unfold read_partition.
   destruct (take 4 s) as [[h s1]|]; [|discriminate].
-  destruct (negb (bytes_eqb h magic_part)); [discriminate|].
+  destruct (negb (bytes_eqb h part_magic_read)); [discriminate|].
   destruct (take 8 s1) as [[cb s2]|]; [|discriminate].
   destruct (isize_max <? 8 * le_dec cb); [discriminate|].
   pose proof (read_items_fuel read_u64 read_u64_consumes) as H.
@@ -180,4 +180,182 @@ Proof.
   specialize (H (S (length s2)) (le_dec cb) s2 ltac:(lia)).
   destruct (read_items (S (length s2)) (le_dec cb) read_u64 s2) as [[? ?]| | |]; try discriminate.
   congruence.
+Qed.
+
+(* ---- weight file ---- *)
+
+Lemma chunks8_app l t : length l = 8%nat -> chunks8 (l ++ t) = l :: chunks8 t.
+Proof.
+  intros H.
+  do 8 (destruct l as [|? l]; [discriminate H|]).
+  destruct l; [|discriminate H]. reflexivity.
+Qed.
+
+Section WeightCodec.
+  Context {T : Type} (enc : T -> list N) (dec : list N -> T) (ok : T -> Prop).
+  Hypothesis enc_len : forall x, length (enc x) = 8%nat.
+  Hypothesis dec_enc : forall x, ok x -> dec (enc x) = x.
+
+  Lemma chunks8_row row : Forall ok row -> map dec (chunks8 (flat_map enc row)) = row.
+  Proof.
+    induction 1 as [|x t Hx Ht IH]; [reflexivity|].
+    cbn [flat_map]. rewrite chunks8_app by apply enc_len. cbn [map]. now rewrite dec_enc, IH.
+  Qed.
+
+  Lemma row_length row : length (flat_map enc row) = (8 * length row)%nat.
+  Proof.
+    induction row as [|x t IH]; [reflexivity|].
+    cbn [flat_map length]. rewrite app_length, enc_len, IH. lia.
+  Qed.
+
+  Lemma read_row_enc c row r :
+    N.of_nat (length row) = c -> Forall ok row ->
+    read_row c dec (flat_map enc row ++ r) = FOk (row, r).
+  Proof.
+    intros Hc Hok. unfold read_row.
+    rewrite take_app_n by (rewrite row_length; lia).
+    now rewrite chunks8_row.
+  Qed.
+
+  Lemma rows_length (rows : list (list T)) (c : nat) :
+    Forall (fun r => length r = c) rows ->
+    length (flat_map (flat_map enc) rows) = (8 * c * length rows)%nat.
+  Proof.
+    induction 1 as [|x t Hx Ht IH]; [cbn [flat_map length]; lia|].
+    cbn [flat_map length]. rewrite app_length, row_length, IH, Hx. lia.
+  Qed.
+
+  Lemma read_weights_inner_enc (rows : list (list T)) (first : list T) :
+    (1 <= length first)%nat ->
+    Forall (fun r => length r = length first /\ Forall ok r) rows ->
+    24 * N.of_nat (length rows) <= isize_max ->
+    read_weights_inner (N.of_nat (length first)) dec
+      (le_enc 8 (N.of_nat (length rows)) ++ flat_map (flat_map enc) rows) = FOk rows.
+  Proof.
+    intros Hc Hrows Hcap. unfold read_weights_inner.
+    rewrite take_app_n by now rewrite le_enc_length.
+    assert (Hn : N.of_nat (length rows) < 2 ^ 64).
+    { unfold isize_max in Hcap. change (2 ^ 63 - 1) with 9223372036854775807 in Hcap.
+      change (2 ^ 64) with 18446744073709551616. lia. }
+    rewrite le_dec_enc8 by exact Hn.
+    destruct (N.ltb_spec isize_max (24 * N.of_nat (length rows))) as [Hbad|_]; [lia|].
+    rewrite <- (app_nil_r (flat_map (flat_map enc) rows)).
+    rewrite (read_items_roundtrip (flat_map enc) (read_row (N.of_nat (length first)) dec)); [reflexivity| |].
+    - rewrite app_nil_r.
+      rewrite (rows_length rows (length first)) by (eapply Forall_impl; [|exact Hrows]; now intros r [H _]).
+      nia.
+    - eapply Forall_impl; [|exact Hrows]. intros row [Hl Hok] r. apply read_row_enc; [now rewrite Hl|exact Hok].
+  Qed.
+End WeightCodec.
+
+Lemma enc_i64_length z : length (enc_i64 z) = 8%nat.
+Proof. apply le_enc_length. Qed.
+Lemma enc_f64_length b : length (enc_f64 b) = 8%nat.
+Proof. apply le_enc_length. Qed.
+
+Lemma le_dec_enc2 c : c < 65536 -> le_dec (le_enc 2 c) = c.
+Proof.
+  intros Hc. rewrite le_dec_enc. change (256 ^ N.of_nat 2) with 65536. now apply N.mod_small.
+Qed.
+
+(* read (write a) for both kinds of arrays; [rw_weights] = write then read *)
+Definition rw_weights (a : warray) : fres warray := fbind (write_weights a) read_weights.
+
+Theorem weight_roundtrip_int_proof : forall rows,
+  rows <> [] -> wf_rows i64_ok rows -> rw_weights (WInts rows) = FOk (WInts rows).
+Proof.
+  intros rows Hne Hwf. destruct rows as [|first rest]; [congruence|].
+  destruct Hwf as [[Hc1 Hc2] [Hrows Hcap]].
+  unfold rw_weights, write_weights, write_integers, write_weights_inner.
+  destruct (N.ltb_spec weight_max_criteria (N.of_nat (length first))) as [Hbad|_];
+    [change weight_max_criteria with 65535 in Hbad; lia|].
+  cbn [fbind]. unfold read_weights.
+  rewrite (take_app_n 4 weight_magic_write) by reflexivity.
+  change (negb (bytes_eqb weight_magic_write weight_magic_read)) with false. cbv iota.
+  pose proof (le_dec_enc2 (N.of_nat (length first)) Hc2) as Hdec.
+  set (tl := le_enc 8 _ ++ _).
+  cbn [le_enc] in Hdec |- *. cbn [app take]. subst tl.
+  change (negb (w_version =? w_version)) with false. cbv iota.
+  rewrite Hdec.
+  destruct (N.eqb_spec (N.of_nat (length first)) 0) as [H0|_]; [lia|].
+  change (negb (N.land flag_integer flag_integer =? 0)) with true. cbv iota.
+  rewrite (read_weights_inner_enc enc_i64 dec_i64 i64_ok enc_i64_length dec_enc_i64 (first :: rest) first);
+    auto. lia.
+Qed.
+
+Theorem weight_roundtrip_float_proof : forall rows,
+  rows <> [] -> wf_rows u64_ok rows -> rw_weights (WFloats rows) = FOk (WFloats rows).
+Proof.
+  intros rows Hne Hwf. destruct rows as [|first rest]; [congruence|].
+  destruct Hwf as [[Hc1 Hc2] [Hrows Hcap]].
+  unfold rw_weights, write_weights, write_floats, write_weights_inner.
+  destruct (N.ltb_spec weight_max_criteria (N.of_nat (length first))) as [Hbad|_];
+    [change weight_max_criteria with 65535 in Hbad; lia|].
+  cbn [fbind]. unfold read_weights.
+  rewrite (take_app_n 4 weight_magic_write) by reflexivity.
+  change (negb (bytes_eqb weight_magic_write weight_magic_read)) with false. cbv iota.
+  pose proof (le_dec_enc2 (N.of_nat (length first)) Hc2) as Hdec.
+  set (tl := le_enc 8 _ ++ _).
+  cbn [le_enc] in Hdec |- *. cbn [app take]. subst tl.
+  change (negb (w_version =? w_version)) with false. cbv iota.
+  rewrite Hdec.
+  destruct (N.eqb_spec (N.of_nat (length first)) 0) as [H0|_]; [lia|].
+  change (negb (N.land 0 flag_integer =? 0)) with false. cbv iota.
+  rewrite (read_weights_inner_enc enc_f64 dec_f64 u64_ok enc_f64_length dec_enc_f64 (first :: rest) first);
+    auto. lia.
+Qed.
+
+(* the empty arrays (the writer's 16-byte special case): Integers([]) reads
+   back as itself, Floats([]) reads back as Integers([]) — the reader returns
+   at `criterion_count == 0` before it looks at the integer flag *)
+Lemma weight_empty_int : rw_weights (WInts []) = FOk (WInts []).
+Proof. vm_compute. reflexivity. Qed.
+Lemma weight_empty_float_reads_as_int : rw_weights (WFloats []) = FOk (WInts []).
+Proof. vm_compute. reflexivity. Qed.
+
+(* no criteria at all (rows of length 0) : the rows are lost *)
+Lemma weight_zero_criteria_lost : rw_weights (WInts [[]; []; []]) = FOk (WInts []).
+Proof. vm_compute. reflexivity. Qed.
+
+(* more than u16::MAX criteria: the writer's assert *)
+Lemma weight_too_many_criteria rows first rest :
+  rows = first :: rest -> weight_max_criteria < N.of_nat (length first) -> write_integers rows = FPanic 2.
+Proof.
+  intros -> H. unfold write_integers, write_weights_inner.
+  destruct (N.ltb_spec weight_max_criteria (N.of_nat (length first))); [reflexivity|lia].
+Qed.
+
+Lemma read_row_consumes {T} c (dec : list N -> T) s x s1 :
+  c <> 0 -> read_row c dec s = FOk (x, s1) -> (length s1 < length s)%nat.
+Proof.
+  intros Hc. unfold read_row. destruct (take (N.to_nat (c * 8)) s) as [[b r]|] eqn:E; [|discriminate].
+  intros [= _ <-]. apply take_length in E as [-> Hl]. rewrite app_length. lia.
+Qed.
+
+Lemma read_weights_inner_terminates {T} c (dec : list N -> T) s :
+  c <> 0 -> read_weights_inner c dec s <> FOutOfFuel.
+Proof.
+  intros Hc. unfold read_weights_inner.
+  destruct (take 8 s) as [[cb s1]|]; [|discriminate].
+  destruct (isize_max <? 24 * le_dec cb); [discriminate|].
+  pose proof (read_items_fuel (read_row c dec) (fun s x s1 => read_row_consumes c dec s x s1 Hc)) as H.
+  specialize (H ltac:(intros s0; unfold read_row; destruct (take _ s0) as [[? ?]|]; discriminate)).
+  specialize (H (S (length s1)) (le_dec cb) s1 ltac:(lia)).
+  destruct (read_items (S (length s1)) (le_dec cb) (read_row c dec) s1) as [[? ?]| | |]; try discriminate.
+  congruence.
+Qed.
+
+Theorem read_weights_terminates : forall s, read_weights s <> FOutOfFuel.
+Proof.
+  intros s. unfold read_weights.
+  destruct (take 4 s) as [[h s1]|]; [|discriminate].
+  destruct (negb (bytes_eqb h weight_magic_read)); [discriminate|].
+  destruct (take 4 s1) as [[[|v [|fl [|c0 [|c1 [|? ?]]]]] s2]|]; try discriminate.
+  destruct (negb (v =? w_version)); [discriminate|].
+  destruct (N.eqb_spec (le_dec [c0; c1]) 0) as [|Hc]; [discriminate|].
+  destruct (negb (N.land fl flag_integer =? 0)).
+  - pose proof (read_weights_inner_terminates (le_dec [c0; c1]) dec_i64 s2 Hc) as H.
+    destruct (read_weights_inner (le_dec [c0; c1]) dec_i64 s2); try discriminate. congruence.
+  - pose proof (read_weights_inner_terminates (le_dec [c0; c1]) dec_f64 s2 Hc) as H.
+    destruct (read_weights_inner (le_dec [c0; c1]) dec_f64 s2); try discriminate. congruence.
 Qed.
